@@ -97,8 +97,8 @@ def discharge(ob, timeout_ms, use_cvc5=True, want_candidate=True):
         sympy_reason = why
     # cone of influence: first try with only the hypotheses that share symbols (transitively) with the goal.
     # Using fewer hypotheses is sound; it keeps unrelated nonlinear facts away from the solver.
-    rel = relevant_pc(ob.pc, g)
-    if rel is not None and len(rel) < len(ob.pc):
+    rel = relevant_pc(ob.pc, g) if any_nonlinear(ob.pc) else None
+    if rel is not None:
         s0 = z3.Solver()
         s0.set("timeout", min(timeout_ms, 5000))
         for c in rel:
@@ -219,6 +219,17 @@ def _consts(e, cache):
             stack.extend(x.children())
     cache[i] = out
     return out
+
+
+def any_nonlinear(pc):
+    from pyvc.state import is_heavy, conjuncts
+    for c in pc:
+        if z3.is_quantifier(c):
+            continue
+        for cc in conjuncts(c):
+            if not z3.is_quantifier(cc) and is_heavy(cc):
+                return True
+    return False
 
 
 def relevant_pc(pc, goal):
